@@ -52,6 +52,44 @@ def parse(src, name):
     return pairs, K, flips
 
 
+TS_SRC = 'src/stim/simulators/tableau_simulator.inl'
+
+
+def parse_ts(src, name):
+    """TableauSimulator: flipping zs.signs[q] of the inverse tableau applies X to the state, xs.signs[q] applies Z; rows use the
+    same schema with table 'x' = X component (zs.signs) and 'z' = Z component (xs.signs)"""
+    got = list(cxx.function_bodies(src, r'void TableauSimulator<W>::%s\(const CircuitInstruction &target_data\)\s*\{' % name))
+    if len(got) != 1:
+        raise cxx.Refuse('definition not found')
+    body = ' '.join(cxx.strip_comments(got[0][1]).split())
+    m1 = re.fullmatch(r'RareErrorIterator::for_samples\(target_data\.args\[0\], target_data\.targets, rng, \[&\]\(GateTarget q\) \{ (.*) \}\);', body)
+    m2 = re.fullmatch(r'const auto &targets = target_data\.targets; assert\(!\(targets\.size\(\) & 1\)\); auto n = targets\.size\(\) >> 1; '
+                      r'RareErrorIterator::for_samples\(target_data\.args\[0\], n, rng, \[&\]\(size_t s\) \{ (.*) \}\);', body)
+    if not m1 and not m2:
+        raise cxx.Refuse('shape: ' + body[:160])
+    pairs = m2 is not None
+    K, flips, roles = 0, [], {}
+    if not pairs:
+        roles['q.data'] = 1
+    for st in [x.strip() for x in (m1 or m2).group(1).split(';') if x.strip()]:
+        mm = re.fullmatch(r'auto p = 1 \+ \(rng\(\) % (\d+)\)', st)
+        if mm:
+            K = int(mm.group(1))
+            continue
+        if pairs and st == 'auto q1 = targets[s << 1].data':
+            roles['q1'] = 1
+            continue
+        if pairs and st == 'auto q2 = targets[1 | (s << 1)].data':
+            roles['q2'] = 2
+            continue
+        mm = re.fullmatch(r'inv_state\.(xs|zs)\.signs\[(q\.data|q1|q2)\] \^= (true|p & (\d+))', st)
+        if mm and mm.group(2) in roles:
+            flips.append(('x' if mm.group(1) == 'zs' else 'z', roles[mm.group(2)], 0 if mm.group(3) == 'true' else int(mm.group(4))))
+            continue
+        raise cxx.Refuse('statement not understood: ' + st)
+    return pairs, K, flips
+
+
 def generate(repo=None):
     repo = repo or core.REPO
     src = open(os.path.join(repo, SRC)).read()
@@ -63,11 +101,23 @@ def generate(repo=None):
             rows.append((gate, pairs, K, flips))
         except cxx.Refuse as e:
             refused.append((fn, str(e)))
+    ts = open(os.path.join(repo, TS_SRC)).read()
+    ts_rows = []
+    for gate, fn in [('X_ERROR', 'do_X_ERROR'), ('Y_ERROR', 'do_Y_ERROR'), ('Z_ERROR', 'do_Z_ERROR'), ('DEPOLARIZE1', 'do_DEPOLARIZE1'),
+                     ('DEPOLARIZE2', 'do_DEPOLARIZE2')]:
+        try:
+            pairs, K, flips = parse_ts(ts, fn)
+            ts_rows.append((gate, pairs, K, flips))
+        except cxx.Refuse as e:
+            refused.append(('TableauSimulator::' + fn, str(e)))
     out = ['(* GENERATED by vlib/gen_framenoise.py from %s of the working tree. *)' % SRC,
            'From Coq Require Import List String Bool NArith.', 'Import ListNotations.', 'Local Open Scope string_scope.',
            '(* gate, targets in pairs, K (p = 1 + rng() %% K; 0 = no p), flips: (table x/z, which qubit of the target group, mask: 0 = always, else when p & mask) *)',
            'Definition frame_noise : list (string * bool * N * list (string * N * N)) := [%s].' % ';\n  '.join(
                '("%s", %s, %d%%N, [%s])' % (g, 'true' if pr else 'false', K, '; '.join('("%s", %d%%N, %d%%N)' % f for f in fl)) for g, pr, K, fl in rows),
+           '(* TableauSimulator: table x = X applied to the state (zs.signs of the inverse tableau), z = Z applied (xs.signs) *)',
+           'Definition tableau_noise : list (string * bool * N * list (string * N * N)) := [%s].' % ';\n  '.join(
+               '("%s", %s, %d%%N, [%s])' % (g, 'true' if pr else 'false', K, '; '.join('("%s", %d%%N, %d%%N)' % f for f in fl)) for g, pr, K, fl in ts_rows),
            'Definition frame_noise_refused : list (string * string) := [%s].' % '; '.join('("%s", "%s")' % (a, c.replace('"', "'")) for a, c in refused)]
     core.write_if_changed(os.path.join(core.COQ, 'Gen_FrameNoise.v'), '\n'.join(out) + '\n')
     return {'rows': len(rows), 'refused': refused}
